@@ -229,7 +229,10 @@ impl Pools {
                 if opening_hours::OpeningHours::parse(&e).is_err() {
                     verdict = Some("does not parse".into());
                 } else {
-                    for t in insts.iter().take(4) {
+                    // every instant of the pool: an expression must be affordable wherever it may be evaluated
+                    // (e.g. `2020-2030/2 ...` is cheap in 2024 and scans to year 9999 from 2040)
+                    for t in insts.iter() {
+                        oh_verif_rt::reset_work_budget();
                         let r = eval::eval(&Op::Iter { e: e.clone(), c: ctx.clone(), t: *t, n: 12 }, None, None);
                         let r2 = eval::eval(&Op::StateNext { e: e.clone(), c: ctx.clone(), t: *t }, None, None);
                         if r.contains("work budget exceeded") || r2.contains("work budget exceeded") {
